@@ -448,7 +448,7 @@ func c12uConfigs(ctx *RunCtx) []c12uCfg {
 		{Name: "WithPathPrefix", S: "/new/v1"}}, Flavour: "alias", Note: "prefix twice", Script: c12uDirected(false)})
 	// random configurations and scripts
 	segs := []string{"a", "op", "oidc", "v1", "t-42", "acme", "x_y", "id.p"}
-	for n := 0; n < ctx.N(16, 600); n++ {
+	for n := 0; n < ctx.N(16, 300); n++ {
 		r := rand.New(rand.NewSource(ctx.R.Int63()))
 		pre, ep := "", ""
 		for d := r.Intn(4); d > 0; d-- {
